@@ -30,6 +30,9 @@ def seg_atoms(alpha='a'):
         (('star',), ('q',), L(a)), (L('.'), ('star',)), (('ext', '+', ((('q',),),)),), (('br', True, (('ch', a),)),),
         (('esc', '*'),), (('ext', '!', ((L(a),), (('star',), L('b')))), L('c')), (('q',), ('q',)), (('br', False, (('posix', 'alpha'),)), ('star',)),
         (('star',), L('('), L(a)), (('q',), L('('), L(a)), (L('['), L(a)),
+        # brackets whose range / POSIX class contains the separator: nothing but a written separator or `**` matches `/`
+        (L(a), ('br', False, (('rng', ' ', '~'),)), L('b')), (('br', False, (('posix', 'punct'),)), L(a)), (L(a), ('br', False, (('rng', '+', '9'), ('ch', 'x')))),
+        (('br', True, (('rng', 'a', 'c'),)), ('star',)),
     ]
 
 
@@ -71,6 +74,16 @@ def name_patterns(tier='quick', alpha='ab.'):
     pats += [(g,) for g in nested] + [(L('a'), g) for g in nested[::2]]
     pats += [(n,) for n in negs] + [(n, L('a')) for n in negs[::3]] + [(n, L('.'), L('b')) for n in negs[::5]]
     pats += [(L('a'), n) for n in negs[::4]]
+    # brackets mixing a POSIX class with ranges / a literal '-', and groups after a prefix whose alternatives start with wildcards
+    star, q = ('star',), ('q',)
+    for items in ((('posix', 'digit'), ('rng', 'a', 'c')), (('posix', 'alpha'), ('ch', '-'), ('ch', '.')), (('rng', 'a', 'c'), ('posix', 'digit'), ('rng', 'x', 'z')),
+                  (('posix', 'upper'), ('ch', 'a'), ('rng', '0', '3'))):
+        for neg in (False, True):
+            b = ('br', neg, items)
+            pats += [(b,), (b, star), (L('a'), b), (b, b)]
+    for k in '@?*+':
+        for alts in (((L('a'),), (star,)), ((L('a'),), (q,)), ((star,), (L('.'), L('a'))), ((L('b'),), (('br', False, (('ch', 'a'), ('ch', '.'))),))):
+            pats += [(L('a'), ('ext', k, alts)), (L('.'), ('ext', k, alts)), (L('a'), ('ext', k, alts), L('b'))]
     pats += degraded()
     pats += [d + (L('b'),) for d in degraded()[:6]] + [(L('a'),) + d for d in degraded()[:6]]
     if tier != 'quick':
